@@ -111,7 +111,7 @@ class Builder:
         n = self.add(('dw' if dw else 'conv', p, m), cout, so)
         if rng.random() < (self.o.get('p_bn', .5) if p_bn is None else p_bn):
             BN = nn.BatchNorm1d if dim == 1 else nn.BatchNorm2d
-            n = self.add(('bn', n, BN(cout)), cout, so)
+            n = self.add(('bn', n, BN(cout, affine=rng.random() > .15)), cout, so)
         n = self.add(('relu', n), cout, so)
         return n
 
@@ -330,8 +330,9 @@ def randomize_bn(net, rng):
                 m.eps = rng.choice([1e-5, 1e-5, 1e-3, 1e-2, .1])
                 m.running_mean.copy_(torch.randn(m.num_features, generator=g))
                 m.running_var.copy_(torch.rand(m.num_features, generator=g) * rng.choice([1., 1., .05]) + rng.choice([.5, .02]))
-                m.weight.copy_(torch.randn(m.num_features, generator=g))
-                m.bias.copy_(torch.randn(m.num_features, generator=g))
+                if m.affine:
+                    m.weight.copy_(torch.randn(m.num_features, generator=g))
+                    m.bias.copy_(torch.randn(m.num_features, generator=g))
 
 
 def intify(net, rng):
@@ -349,8 +350,9 @@ def intify(net, rng):
                 m.eps = 0.
                 m.running_var.fill_(1.)
                 m.running_mean.copy_(torch.tensor([float(rng.randint(-2, 2)) for _ in range(n)]))
-                m.weight.copy_(torch.tensor([float(rng.choice([-2, -1, 1, 1, 2])) for _ in range(n)]))
-                m.bias.copy_(torch.tensor([float(rng.randint(-2, 2)) for _ in range(n)]))
+                if m.affine:
+                    m.weight.copy_(torch.tensor([float(rng.choice([-2, -1, 1, 1, 2])) for _ in range(n)]))
+                    m.bias.copy_(torch.tensor([float(rng.randint(-2, 2)) for _ in range(n)]))
 
 
 def choose_exclusions(prog, rng, mode):
